@@ -202,7 +202,7 @@ def run(ctx):
         plan.append((cfg, "A013", d - 1))
         tasks += [dict(t, alphabet_name="A013") for t in tree.tree_tasks(cfg, ALPHABETS["A013"], d - 1, split=3)]
     for N in (1, 2):
-        for extra in (dict(density=2), dict(density=4), dict(refine=True), dict(constraints=2)):
+        for extra in (dict(density=2), dict(density=4), dict(refine=True), dict(constraints=2, discrete=1)):
             cfg = dict(N=N, r=2.0, box="B0" if N != 2 else "B1", **extra)
             dd = d - 1
             plan.append((cfg, "A013", dd))
@@ -210,7 +210,7 @@ def run(ctx):
     # value domains (all negative, tiny across zero, closer than 1e-9) and values of r outside the grid above
     for N in (1, 2):
         bx = "B0" if N != 2 else "B1"
-        for cfg, a in [(dict(N=N, r=2.0, box=bx), a) for a in ("Aneg", "Atiny", "Anear", "Anegbig")] + \
+        for cfg, a in [(dict(N=N, r=2.0, box=bx), a) for a in ("Aneg", "Atiny", "Anear", "Anegbig", "Aoffs")] + \
                       [(dict(N=N, r=r, box=bx), "Am201") for r in (4.0, 16.0, 12.5, 1.01)]:
             dd = d - 2
             plan.append((cfg, a, dd))
